@@ -220,7 +220,8 @@ where
                 }
 
                 ParseState::Literal => match byte {
-                    b if b.is_ascii_whitespace() => {
+                    // Any ASCII whitespace byte terminates the literal.
+                    b @ (b' ' | b'\n'..=b'\r') => {
                         self.finish_literal()?;
 
                         // A line break ends the literal like any other whitespace, but it also
